@@ -37,6 +37,8 @@ CHECKS = {
             "R-resolve restates the resolution rule of the property"),
     "C10": ("R-order reference + determinism under injected perturbation: sub-processes with different PYTHONHASHSEED, seeded shuffling wrapper on Path.rglob, equivalent argument spellings/orders/duplicates/symlinks; signatures compared byte for byte",
             "only accept/reject and successful results are compared (which of several errors is reported may depend on order)"),
+    "C11": ("pairwise rule predicate (exactly the statement's) as oracle over generated definition families in target and referenced-lookup placement; two-definition sub-space enumerated in the thorough tier",
+            "unregulated port-IDs (regulated ranges belong to C05)"),
 }
 
 NOT_YET = {
